@@ -254,7 +254,7 @@ class Engine(object):
         if cond is False:
             cond = z3.BoolVal(False)
         try:
-            sat = self.check_fresh(z3.Not(cond))
+            sat = (self.check if getattr(self, 'incremental_obligations', False) else self.check_fresh)(z3.Not(cond))
         except Inconclusive as e:
             self.stats['inconclusive'] += 1
             rec['status'] = 'inconclusive'
